@@ -13,6 +13,7 @@ import (
 	"runtime"
 	"strings"
 	"sync"
+	"sync/atomic"
 
 	"github.com/janelia-flyem/dvid/dvid"
 
@@ -141,6 +142,85 @@ func runC15(c *vlib.Ctx) {
 		}
 	})
 	c.Sample(map[string]interface{}{"roundtrip": "SerializeData(lcg[257], lz4+crc32) -> DeserializeData(uncompress=true) == input"})
+
+	// complete small alphabet: every string over {a, b} up to a length (and every string over {a, b, c} up to a shorter
+	// one) through every non-gzip format: low-entropy values are where a compressor's output length meets its input length
+	// and where "stored raw" shortcuts of a codec wrapper would fire
+	{
+		maxBin, maxTer := 18, 11
+		if c.Thorough() {
+			maxBin, maxTer = 22, 13
+		}
+		var fs []c15fmt
+		for _, f := range formats {
+			if !strings.HasPrefix(f.name, "gzip") {
+				fs = append(fs, f)
+			}
+		}
+		type span struct{ base, n, lo, hi int }
+		var jobs []span
+		for n := 1; n <= maxBin; n++ {
+			total := 1 << uint(n)
+			for lo := 0; lo < total; lo += 1 << 16 {
+				hi := lo + 1<<16
+				if hi > total {
+					hi = total
+				}
+				jobs = append(jobs, span{2, n, lo, hi})
+			}
+		}
+		for n := 1; n <= maxTer; n++ {
+			total := 1
+			for i := 0; i < n; i++ {
+				total *= 3
+			}
+			for lo := 0; lo < total; lo += 1 << 16 {
+				hi := lo + 1<<16
+				if hi > total {
+					hi = total
+				}
+				jobs = append(jobs, span{3, n, lo, hi})
+			}
+		}
+		var evals, sameLen int64
+		vlib.Par(len(jobs), 16, func(ji int) {
+			j := jobs[ji]
+			buf := make([]byte, j.n)
+			var ne, ns int64
+			for code := j.lo; code < j.hi; code++ {
+				v := code
+				for i := 0; i < j.n; i++ {
+					buf[i] = byte('a' + v%j.base)
+					v /= j.base
+				}
+				for _, f := range fs {
+					ne++
+					ser, err := dvid.SerializeData(buf, f.comp, f.cksum)
+					if err != nil {
+						c.Violate("roundtrip:serialize-error:"+f.name, fmt.Sprintf("SerializeData(%q) with %s failed: %v", buf, f.name, err), map[string]interface{}{"payload": string(buf), "format": f.name})
+						continue
+					}
+					hdr := 1
+					if f.cksum == dvid.CRC32 {
+						hdr = 5
+					}
+					if strings.HasPrefix(f.name, "lz4") && len(ser)-hdr-4 == len(buf) {
+						ns++ // the LZ4 block is exactly as long as its input
+					}
+					got, _, derr := dvid.DeserializeData(ser, true)
+					if derr != nil || !bytes.Equal(got, buf) {
+						c.Violate("roundtrip:mismatch:small-alphabet:"+f.name, fmt.Sprintf("round trip of %q through %s not identical: err=%v got %q", buf, f.name, derr, got), map[string]interface{}{"payload": string(buf), "format": f.name})
+					}
+				}
+			}
+			atomic.AddInt64(&evals, ne)
+			atomic.AddInt64(&sameLen, ns)
+		})
+		c.Eval(evals)
+		c.Set("small_alphabet_roundtrips", evals)
+		c.Set("small_alphabet_lz4_block_as_long_as_input", sameLen)
+		c.Set("small_alphabet_bound", fmt.Sprintf("all strings over {a,b} of length 1..%d and over {a,b,c} of length 1..%d x {none, snappy, lz4} x {no checksum, CRC32}", maxBin, maxTer))
+	}
 
 	// empty payload
 	for _, f := range formats {
